@@ -329,6 +329,11 @@ class RandSchema:
         return self.ref_from(file, dfile, name), rt, n
 
     def gen_alias(self, depth, budget, file):
+        user_file = file
+        if file == "main" and self.cfg.imports and self.rng.random() < 0.25:
+            # the alias (and whatever it is made of) lives in the imported file
+            file = "lib"
+            self.uses_lib = True
         name = self.fresh("Ty")
         if self.cfg.arrays and self.rng.random() < 0.5 and budget >= 2:
             te, rt, nb = self.gen_array(depth, budget, None, file)
@@ -340,7 +345,7 @@ class RandSchema:
         (self.main if file == "main" else self.lib).append(decl)
         art = {"k": "alias", "name": name, "to": rt}
         self.reusable.append((file, name, "alias", art, nb))
-        return tref([name]), art, nb
+        return self.ref_from(user_file, file, name), art, nb
 
     def gen_elem(self, depth, budget, body, file):
         """Array element: base, enum, alias or message (never an array directly)."""
